@@ -863,6 +863,10 @@ impl<'i, I: Interner> DisplayUnsat<'i, I> {
                             .display_merged_solvables(&merged.ids)
                             .to_string()
                     } else if let Some(solvable_id) = solvable_id.solvable() {
+                        // A candidate is expanded at most once. Without this, a cycle of
+                        // requirements between candidates that are not merged would be
+                        // rendered forever.
+                        reported.insert(solvable_id.into());
                         self.interner
                             .display_merged_solvables(&[solvable_id])
                             .to_string()
